@@ -503,6 +503,130 @@ Proof.
   exact (cc_all_ok fuel t Hs Hg s res Hsem Hst a tbl T S C M Hc Hex Hk Hr).
 Qed.
 
+(* ---------- the whole program: Lazybranch Lend ; root ; Lend: Stop ---------- *)
+Lemma cc_has_code_self : has_code 0 (codes p).
+Proof.
+  intros i w Hi. unfold code_at, znth. replace (0 + Z.of_nat i <? 0) with false by lia.
+  replace (Z.to_nat (0 + Z.of_nat i)) with i by lia. exact Hi.
+Qed.
+
+Lemma cc_caps_rel_init : 0 <= capsize p -> caps_rel [] (repeat [] (Z.to_nat (capsize p))).
+Proof.
+  intros H. split.
+  - unfold zlen. rewrite repeat_length. lia.
+  - intros g Hg. cbn [cap_get rev flat].
+    destruct (nth_in_or_default (Z.to_nat g) (repeat (@nil Z) (Z.to_nat (capsize p))) []) as [Hin|Hd]; [|exact Hd].
+    apply repeat_spec in Hin. exact Hin.
+Qed.
+
+Theorem compile_correct_top_partial : forall fuel o body t0 r,
+  let root := NCapture o 0 (-1) body in
+  let M0 := repeat [] (Z.to_nat (capsize p)) in
+  let stop := 2 + csize cfg0 root in
+  codes p = fst (compile cfg0 root) ->
+  supported root = true -> groups_ok (capsize p) root -> 0 <= t0 <= tlen e ->
+  attempt e fuel root t0 = Ok r ->
+  code_at p stop = Some Stop /\
+  exists t T S C M,
+    VMU.usteps e p (VMU.mk 0 0 t0 [] [] [] M0) (VMU.mk stop 0 t T S C M) /\
+    VMU.ustep e p (VMU.mk stop 0 t T S C M) = Ok (Done (VMU.mk stop 0 t T S C M)) /\
+    match r with
+    | Some q => t = pos q /\ caps_rel (caps q) M /\ matched0 (VMU.mk stop 0 t T S C M) = true
+    | None => M = M0 /\ T = [] /\ S = [] /\ C = [] /\ matched0 (VMU.mk stop 0 t T S C M) = false
+    end.
+Proof.
+  intros fuel o body t0 r root M0 stop Hcodes Hs Hg Ht0 Hatt.
+  unfold attempt in Hatt. apply sp_bind_ok in Hatt. destruct Hatt as [l [Hsem Hr]]. injection Hr as <-.
+  pose proof cc_has_code_self as Hc. rewrite Hcodes in Hc. unfold compile in Hc.
+  pose proof (emit_length cfg0 root 2 []) as Lr.
+  destruct (emit cfg0 root 2 []) as [cr tbl'] eqn:Er. cbn [fst] in Lr, Hc.
+  apply has_code_cons in Hc. destruct Hc as [H0 Hc]. apply has_code_cons in Hc. destruct Hc as [H1 Hc].
+  apply has_code_app in Hc. destruct Hc as [Hcr Hc]. apply has_code_cons in Hc. destruct Hc as [Hstop _].
+  replace (0 + 1) with 1 in * by lia. replace (1 + 1) with 2 in * by lia.
+  rewrite Lr in *. fold stop in H1, Hstop.
+  split; [exact Hstop|].
+  assert (Hg0 : 0 <= 0 < capsize p) by (destruct Hg as [Hg0 _]; exact Hg0).
+  assert (Hst : st_ok e {| pos := t0; caps := [] |}) by (apply sb_init_ok; exact Ht0).
+  assert (Hex2 : code_ex 2).
+  { eapply cc_code_ex_start; [exact Hcr|]. rewrite Lr. exists Stop. exact Hstop. }
+  destruct Hex2 as [w2 Hw2].
+  assert (Hcap : 0 <= capsize p) by lia.
+  assert (G : leadsg stop [0] [] [] [] M0 (mkr 2 0 t0 [0] [] [] M0) l).
+  { apply (compile_correct_partial fuel root {| pos := t0; caps := [] |} l Hsem Hs Hst Hg 2 [] [0] [] [] M0).
+    - rewrite Er. exact Hcr.
+    - exists Stop. exact Hstop.
+    - eapply track_ok_cons. exact H0.
+    - apply cc_caps_rel_init. exact Hcap. }
+  assert (Hstep1 : VMU.usteps e p (VMU.mk 0 0 t0 [] [] [] M0) (mkr 2 0 t0 [0] [] [] M0 t0)).
+  { apply usteps_one. unfold mkr. cbn [app]. eapply ustep_lazybranch; eassumption. }
+  assert (HlM0 : zlen M0 = capsize p) by (unfold M0, zlen; rewrite repeat_length; lia).
+  destruct l as [|q l'].
+  - cbn [leadsg] in G. destruct G as (np & T' & t & HT & Hs1). injection HT as <- <-.
+    destruct (Hs1 t0) as [r' Hr']. rewrite bkr_pos in Hr' by lia. unfold mkr in Hr' at 2. cbn [app] in Hr'.
+    exists r', [], [], [], M0.
+    split.
+    { eapply usteps_trans; [exact Hstep1|]. eapply usteps_trans; [exact Hr'|]. apply usteps_one.
+      eapply ustep_lazybranch_back; eassumption. }
+    split. { apply ustep_stop. exact Hstop. }
+    repeat (split; [reflexivity|]).
+    unfold matched0, mc_get. cbn [mcaps VMU.mk]. rewrite (cc_znth_nth M0 0 []) by lia.
+    destruct (cc_caps_rel_init Hcap) as [_ Hn]. fold M0 in Hn. change (nth 0 M0 []) with (nth (Z.to_nat 0) M0 []).
+    rewrite Hn by lia. reflexivity.
+  - cbn [leadsg] in G. destruct G as (T' & C' & M' & Hcq & Hu & Hk & Hs1 & _).
+    destruct (Hs1 t0) as [r' Hr']. unfold mkr in Hr' at 2.
+    exists (pos q), ((T' ++ [0]) ++ [r']), [], (C' ++ []), M'.
+    split. { eapply usteps_trans; [exact Hstep1|exact Hr']. }
+    split. { apply ustep_stop. exact Hstop. }
+    split; [reflexivity|]. split; [exact Hcq|].
+    unfold root in Hsem. destruct fuel as [|f]; [discriminate Hsem|]. rewrite cc_sem_capture in Hsem. apply sp_bindr_ok in Hsem. destruct Hsem as [la [_ Hb]].
+    apply sb_bindl_singleton in Hb. destruct la as [|s' la']; [discriminate Hb|]. cbn [map] in Hb. injection Hb as -> _.
+    destruct Hcq as [HlM HcM]. unfold matched0, mc_get. cbn [mcaps VMU.mk]. rewrite (cc_znth_nth M' 0 []) by lia.
+    change (nth (Z.to_nat 0) M' []) with (nth 0 M' []) in *.
+    specialize (HcM 0 Hg0). change (nth (Z.to_nat 0) M' []) with (nth 0 M' []) in HcM. rewrite HcM.
+    cbn [caps]. unfold cap_push. rewrite sb_cap_get_set_same. cbn [rev]. rewrite cc_flat_app.
+    destruct (span t0 (pos s')) as [i n]. cbn [flat]. unfold zlen. rewrite app_length. cbn [length]. lia.
+Qed.
+
 End CC.
 
 Print Assumptions compile_correct_partial.
+
+Print Assumptions compile_correct_top_partial.
+
+(* ---------- a concrete instance: (a|ab)(c|bcd) on "abc" ----------
+   The first alternative of group 1 ("a") leads nowhere, the interpreter backtracks into it and
+   takes "ab", then "c".  The corollary gives a reachable Stop state whose position and capture
+   arrays are the reference result; the bounded interpreter [exec_at] computes the same state. *)
+Definition cc_demo_env : env :=
+  {| txt := [97; 98; 99]; tstart := 0; ecma := false; endz_strict := false;
+     set_in := fun _ _ => false; lower := fun x => x; is_word := fun _ => true; is_eword := fun _ => true |}.
+Definition cc_demo_body : node :=
+  NConcat 0 [NCapture 0 1 (-1) (NAlternate 0 [NChar COne 0 97; NConcat 0 [NChar COne 0 97; NChar COne 0 98]]);
+             NCapture 0 2 (-1) (NAlternate 0 [NChar COne 0 99;
+                                              NConcat 0 [NChar COne 0 98; NChar COne 0 99; NChar COne 0 100]])].
+Definition cc_demo_root : node := NCapture 0 0 (-1) cc_demo_body.
+Definition cc_demo_prog : program :=
+  {| codes := fst (compile cfg0 cc_demo_root); strings := snd (compile cfg0 cc_demo_root);
+     trackcount := track_count (fst (compile cfg0 cc_demo_root)); capsize := 3 |}.
+Definition cc_demo_result : st := {| pos := 3; caps := [(1, [(0, 2)]); (2, [(2, 1)]); (0, [(0, 3)])] |}.
+
+Example cc_demo :
+  attempt cc_demo_env 20 cc_demo_root 0 = Ok (Some cc_demo_result) /\
+  (exists t T S C M,
+     VMU.usteps cc_demo_env cc_demo_prog (VMU.mk 0 0 0 [] [] [] [[]; []; []]) (VMU.mk 36 0 t T S C M) /\
+     VMU.ustep cc_demo_env cc_demo_prog (VMU.mk 36 0 t T S C M) = Ok (Done (VMU.mk 36 0 t T S C M)) /\
+     t = 3 /\ caps_rel cc_demo_prog (caps cc_demo_result) M /\
+     matched0 (VMU.mk 36 0 t T S C M) = true) /\
+  (exists s', exec_at cc_demo_env cc_demo_prog (-1) 5 0 = Ok s' /\ pc s' = 36 /\ tp s' = 3 /\
+              mcaps s' = [[0; 3]; [0; 2]; [2; 1]]).
+Proof.
+  split; [vm_compute; reflexivity|]. split.
+  - assert (Htc : 0 <= trackcount cc_demo_prog) by (vm_compute; congruence).
+    assert (Hg : groups_ok (capsize cc_demo_prog) cc_demo_root).
+    { cbn. repeat split; try exact I; cbv; congruence. }
+    assert (Hp : 0 <= 0 <= tlen cc_demo_env) by (cbv; split; congruence).
+    destruct (compile_correct_top_partial cc_demo_env cc_demo_prog Htc 20 0 cc_demo_body 0 (Some cc_demo_result)
+                eq_refl eq_refl Hg Hp ltac:(vm_compute; reflexivity)) as [_ (t & T & S & C & M & H1 & H2 & H3 & H4 & H5)].
+    exists t, T, S, C, M. exact (conj H1 (conj H2 (conj H3 (conj H4 H5)))).
+  - eexists. split; [vm_compute; reflexivity|]. repeat split.
+Qed.
